@@ -46,6 +46,7 @@ class LegacyPort(ebbfake.PortExtras):
 
     def arm(self, plan, n, name):
         self.plan, self.n, self.name, self.reads, self.data_out, self.raised = plan, n, name, 0, False, False
+        self.dead = False
 
     def _exc(self, msg):
         """a serial I/O exception: pyserial's own, or the OSError the operating system layer raises under it"""
@@ -69,10 +70,20 @@ class LegacyPort(ebbfake.PortExtras):
             t = "%d\r\n" % (1000 + tok[1])
         return t
 
+    def _dead_op(self):
+        """flush / reset_*_buffer / cancel_* on a port whose transfer has just failed, within the same request: the device is gone, so these
+        fail as well (half of the requests; pyserial raises from them on a closed or vanished descriptor).  A primitive that tidies up in
+        its exception handler must not let that second failure out.  The pinned code calls none of them."""
+        if self.plan is not None and getattr(self, "dead", False) and self.n % 2 == 0:
+            raise self._exc("injected failure of a buffer operation on a dead port")
+
+    flush = flushInput = flushOutput = reset_input_buffer = reset_output_buffer = cancel_read = cancel_write = _dead_op
+
     def write(self, data):
         p = self.plan
         if p["fault"] == "wraise":
             self.log.append({"ev": "wx"})
+            self.dead = True
             raise self._exc("injected write failure")
         txt = data.decode("ascii", "replace") if isinstance(data, (bytes, bytearray)) else "<not bytes: %r>" % (data,)
         self.log.append({"ev": "w", "text": txt, "body": txt.rstrip("\r\n")})
@@ -103,6 +114,7 @@ class LegacyPort(ebbfake.PortExtras):
                 or (p["fault"] == "rNraise" and self.data_out and not self.raised) \
                 or (p["fault"] == "rkraise" and self.reads == p.get("rk", 1)):
             self.raised = True
+            self.dead = True
             self.log.append({"ev": "rx"})
             raise self._exc("injected read failure")
         if not self.q:
